@@ -194,6 +194,8 @@ pub struct RoleCfg {
     pub default_work: Work,
     /// work performed by tick handlers
     pub tick_work: Work,
+    /// context operation performed by the handler of the Note/Ask with this id (after its work)
+    pub msg_actions: Vec<(u32, Action)>,
 }
 
 impl Default for RoleCfg {
@@ -207,6 +209,7 @@ impl Default for RoleCfg {
             work: vec![],
             default_work: Work::default(),
             tick_work: Work::default(),
+            msg_actions: vec![],
         }
     }
 }
@@ -536,7 +539,14 @@ impl<const K: u8> Probe<K> {
         })
     }
 
-    async fn run_msg(&mut self, id: u32) -> Reply {
+    fn action_for(&self, id: u32) -> Option<Action> {
+        W.with(|w| {
+            let w = w.borrow();
+            w.roles[self.role as usize].msg_actions.iter().find(|(m, _)| *m == id).map(|(_, a)| *a)
+        })
+    }
+
+    async fn run_msg(&mut self, ctx: &mut Context<Self>, id: u32) -> Reply {
         let cb = Cb::Msg(id);
         self.enter(cb);
         let nth = W.with(|w| {
@@ -550,6 +560,9 @@ impl<const K: u8> Probe<K> {
             }
         });
         do_work(self.work_for(id)).await;
+        if let Some(a) = self.action_for(id) {
+            self.act(ctx, a).await;
+        }
         self.after(cb);
         self.handled += 1;
         self.digest = fold(self.digest, id);
@@ -721,14 +734,14 @@ impl<const K: u8> Actor for Probe<K> {
 }
 
 impl<const K: u8> Handler<Note> for Probe<K> {
-    async fn handle(&mut self, _ctx: &mut Context<Self>, m: Note) {
-        self.run_msg(m.0).await;
+    async fn handle(&mut self, ctx: &mut Context<Self>, m: Note) {
+        self.run_msg(ctx, m.0).await;
     }
 }
 
 impl<const K: u8> Handler<Ask> for Probe<K> {
-    async fn handle(&mut self, _ctx: &mut Context<Self>, m: Ask) -> Reply {
-        self.run_msg(m.0).await
+    async fn handle(&mut self, ctx: &mut Context<Self>, m: Ask) -> Reply {
+        self.run_msg(ctx, m.0).await
     }
 }
 
